@@ -427,6 +427,10 @@ def run(db: DB, rep: Report) -> None:
               "the node dispatch of __trans_nodes does not end in a raise: an unknown node kind "
               "would be skipped silently")
 
+    # ---- K3 loop bracket chain and its recursive consumption ----------------------
+    rep.rule("K3", "loop nest chain: loops in order, update innermost, ends reversed; recursive consumption", 4)
+    _check_chain(db, rep, fg, tn)
+
     # ---- K4 hoist guard --------------------------------------------------------
     rep.rule("K4", "hoisting is guarded by non-descendance of the processed loop and inserts at its index", 1)
     _check_hoist(db, rep, fg)
@@ -513,6 +517,111 @@ def run(db: DB, rep: Report) -> None:
                       (name, "/".join(sorted(ks)), f.name,
                        "no incoming edge" if not has_in else "no outgoing edge",
                        "top" if not has_in else "bottom"))
+
+
+def _check_chain(db: DB, rep: Report, fg: ClassInfo, tn: FuncInfo) -> None:
+    bl = fg.methods.get("__build_loop_nest")
+    if bl is None:
+        raise AnalysisError("FlowGraph.__build_loop_nest not found")
+    fn = bl.node
+    # the chain local: a list initialised with OtherNode("StartLoop") and appended to
+    chains = [n for n in walk_no_nested(fn) if isinstance(n, (ast.Assign, ast.AnnAssign)) and
+              isinstance(n.value, ast.List) and len(n.value.elts) == 1 and
+              norm(n.value.elts[0]) == "OtherNode('StartLoop')"]
+    if len(chains) != 1:
+        raise AnalysisError("loop chain of __build_loop_nest not found")
+    cname = (chains[0].targets[0] if isinstance(chains[0], ast.Assign) else chains[0].target).id
+    order_names = {n.targets[0].id for n in walk_no_nested(fn) if isinstance(n, ast.Assign) and
+                   isinstance(n.targets[0], ast.Name) and "get_loop_order" in paths.called_names([n.value])}
+    seq = []
+    _, _, blk = paths.block_of(chains[0])
+    idx = blk.index(chains[0])
+    for s_ in blk[idx + 1:]:
+        if isinstance(s_, ast.For) and len(s_.body) == 1:
+            c = s_.body[0]
+            call = c.value if isinstance(c, ast.Expr) else None
+            if isinstance(call, ast.Call) and norm(call.func) == cname + ".append" and \
+                    isinstance(call.args[0], ast.Call) and isinstance(s_.target, ast.Name) and \
+                    norm(call.args[0].args[0]) == s_.target.id:
+                it = s_.iter
+                rev = isinstance(it, ast.Call) and norm(it.func) == "reversed"
+                base = it.args[0] if rev else it
+                if isinstance(base, ast.Name) and base.id in order_names:
+                    seq.append(("rev:" if rev else "fwd:") + norm(call.args[0].func))
+                    continue
+            if cname in paths.load_names(s_) and "append" in paths.called_names([s_]):
+                raise AnalysisError("the loop chain is extended at %s in a form this checker does not "
+                                    "recognise; it cannot decide rule K3" % db.loc(s_))
+            break
+        elif isinstance(s_, ast.Expr) and isinstance(s_.value, ast.Call) and \
+                norm(s_.value.func) == cname + ".append":
+            seq.append(norm(s_.value.args[0]))
+        else:
+            if cname in paths.load_names(s_) and any(
+                    isinstance(x, (ast.Assign, ast.AugAssign)) and cname in
+                    {getattr(t, "id", None) for t in (x.targets if isinstance(x, ast.Assign) else [x.target])}
+                    for x in ast.walk(s_)):
+                raise AnalysisError("the loop chain is rebuilt at %s in a form this checker does not "
+                                    "recognise; it cannot decide rule K3" % db.loc(s_))
+            break
+    want = ["fwd:LoopNode", "OtherNode('Body')", "rev:EndLoopNode", "OtherNode('Footer')"]
+    rep.check("K3", seq == want, db.loc(chains[0]), bl.short, "chain-order",
+              "chain = StartLoop, loops in loop order, Body, ends in reverse order, Footer (%s)" % seq,
+              "the loop chain is built as %s instead of %s: loops would not be properly nested with the "
+              "update innermost" % (seq, want))
+    # consecutive elements are linked
+    link = [n for n in walk_no_nested(fn) if isinstance(n, ast.For) and isinstance(n.target, ast.Name) and
+            norm(n.iter) == "range(len(%s) - 1)" % cname]
+    ok = False
+    if len(link) == 1:
+        i = link[0].target.id
+        ok = any(isinstance(x, ast.Call) and norm(x.func) == "self.graph.add_edge" and
+                 norm(x.args[0]) == "%s[%s]" % (cname, i) and norm(x.args[1]) == "%s[%s + 1]" % (cname, i)
+                 for x in ast.walk(link[0]))
+    rep.check("K3", ok, db.loc(link[0]) if link else db.loc(fn), bl.short, "chain-links",
+              "every chain element is linked to its successor",
+              "the loop chain elements are not linked pairwise (chain[i] -> chain[i + 1] for all i)")
+    # translator: the loop arm recurses on the rest and skips what the recursion consumed
+    arm = None
+    for n in walk_no_nested(tn.node):
+        if isinstance(n, ast.If) and isinstance(n.test, ast.Call) and norm(n.test.func) == "isinstance" and \
+                norm(n.test.args[1]) == "LoopNode":
+            arm = n
+    if arm is None:
+        raise AnalysisError("LoopNode arm of __trans_nodes not found")
+    rec = [x for s_ in arm.body for x in ast.walk(s_) if isinstance(x, ast.Call) and
+           isinstance(x.func, ast.Attribute) and x.func.attr == "__trans_nodes"]
+    ok = False
+    if len(rec) == 1 and isinstance(rec[0].parent, ast.Assign) and isinstance(rec[0].parent.targets[0], ast.Tuple):
+        jname = rec[0].parent.targets[0].elts[0].id
+        arg = rec[0].args[0]
+        sl_ok = isinstance(arg, ast.Subscript) and isinstance(arg.slice, ast.Slice) and arg.slice.upper is None \
+            and isinstance(arg.slice.lower, ast.BinOp) and isinstance(arg.slice.lower.op, ast.Add) and \
+            _const(arg.slice.lower.right) == 1
+        idx_name = norm(arg.slice.lower.left) if sl_ok else None
+        adv = any(isinstance(s_, ast.AugAssign) and isinstance(s_.op, ast.Add) and norm(s_.target) == idx_name
+                  and norm(s_.value) == jname for s_ in arm.body)
+        ok = sl_ok and adv
+    rep.check("K3", ok, db.loc(arm), tn.short, "loop-recursion",
+              "the loop arm translates nodes[i + 1:] recursively and advances by what was consumed",
+              "the loop arm of __trans_nodes does not recurse on the remaining nodes and skip the consumed "
+              "ones; loop bodies and their EndLoop brackets would no longer match")
+    # EndLoop returns the number of nodes consumed including itself
+    earm = None
+    for n in walk_no_nested(tn.node):
+        if isinstance(n, ast.If) and isinstance(n.test, ast.Call) and norm(n.test.func) == "isinstance" and \
+                norm(n.test.args[1]) == "EndLoopNode":
+            earm = n
+    ok = earm is not None and len(earm.body) == 1 and isinstance(earm.body[0], ast.Return) and \
+        isinstance(earm.body[0].value, ast.Tuple) and isinstance(earm.body[0].value.elts[0], ast.BinOp) and \
+        _const(earm.body[0].value.elts[0].right) == 1
+    rep.check("K3", ok, db.loc(earm) if earm else db.loc(tn.node), tn.short, "endloop-count",
+              "EndLoop returns (consumed + 1, code)",
+              "the EndLoop arm does not return the number of nodes consumed including the bracket itself")
+
+
+def _const(e: ast.AST):
+    return e.value if isinstance(e, ast.Constant) else None
 
 
 def _check_hoist(db: DB, rep: Report, fg: ClassInfo) -> None:
@@ -645,6 +754,12 @@ def mutants(db: DB):
         M("EndLoopNode arm does not return", hf,
           "            elif isinstance(node, EndLoopNode):\n                return i + 1, code",
           "            elif isinstance(node, EndLoopNode):\n                pass", "K2"),
+        M("end-loops not reversed", fg, "        for rank in reversed(loop_order):\n            chain.append(EndLoopNode(rank))",
+          "        for rank in loop_order:\n            chain.append(EndLoopNode(rank))", "K3"),
+        M("update before the loops", fg, "        for rank in loop_order:\n            chain.append(LoopNode(rank))\n        chain.append(OtherNode(\"Body\"))",
+          "        chain.append(OtherNode(\"Body\"))\n        for rank in loop_order:\n            chain.append(LoopNode(rank))", "K3"),
+        M("recursion does not skip consumed nodes", hf, "                code.add(SFor(payload, expr, body))\n                i += j",
+          "                code.add(SFor(payload, expr, body))", "K3"),
         M("descendants -> ancestors", fg, "nx.descendants(self.graph, LoopNode(rank))",
           "nx.ancestors(self.graph, LoopNode(rank))", "K4"),
         M("remove not-in-descendants test", fg, "                if self.sorted[i] not in descendants:",
